@@ -212,7 +212,7 @@ class World:
                 break
             do = item['do']
             if do == 'sleep':
-                dsched.v_sleep(item['dt'])
+                dsched.v_sleep(item.get('dt', 0.1))
             elif do == 'update':
                 peer.push('update m:_p [7.5, {"t": 3}]')
             elif do == 'ignore':
@@ -462,7 +462,8 @@ def check(ctx, case, preempt=None):
                     # a lost request, or one parked behind a lost request with the same key, legitimately ends in a time-out.
                     # but a request issued well after all earlier requests with its key have timed out is not parked any more:
                     # it must at least be transmitted (change requests carry the caller's number)
-                    earlier = [results[j] for j, cj in enumerate(case['callers']) if j != i and cj['key'] == c['key'] and results[j][4] < t0]
+                    # (requests of the same key issued at the same moment count as earlier: this one may be parked behind them)
+                    earlier = [results[j] for j, cj in enumerate(case['callers']) if j != i and cj['key'] == c['key'] and results[j][4] <= t0]
                     if action == 'change' and not c.get('bad') and not disturbed and not mine and earlier and \
                             all(e[0] == 'exc' and e[1] == 'TimeoutError' and e[5] + 1.5 < t0 for e in earlier):
                         ctx.finding('request-never-transmitted:after-earlier-timeout-of-same-key', sub,
